@@ -129,22 +129,44 @@ func (u *Unit) onlyDefReaching(v types.Object, a *flow.Site, at *flow.Block) boo
 	seen := map[*flow.Block]bool{}
 	ok := true
 	var back func(b *flow.Block, from int)
-	assigns := func(n ast.Node) bool {
-		found := false
+	// assigns reports 1 when n assigns v an unknown value, 2 when it assigns a provably non-nil
+	// error (errors.New, fmt.Errorf, a package-level error variable): on such a path the nil test fails
+	// anyway, so it does not weaken the evidence.
+	nonNilErr := func(e ast.Expr) bool {
+		switch x := ast.Unparen(e).(type) {
+		case *ast.CallExpr:
+			if se, ok := x.Fun.(*ast.SelectorExpr); ok && (se.Sel.Name == "New" || se.Sel.Name == "Errorf") {
+				return true
+			}
+		case *ast.Ident:
+			o := u.Info().ObjectOf(x)
+			return o != nil && o.Pkg() != nil && o.Parent() == o.Pkg().Scope() && isErrorType(o.Type())
+		case *ast.SelectorExpr:
+			o := u.Info().ObjectOf(x.Sel)
+			return o != nil && o.Pkg() != nil && o.Parent() == o.Pkg().Scope() && isErrorType(o.Type())
+		}
+		return false
+	}
+	assigns := func(n ast.Node) int {
+		found := 0
 		ast.Inspect(n, func(c ast.Node) bool {
 			switch x := c.(type) {
 			case *ast.FuncLit:
 				return false
 			case *ast.AssignStmt:
-				for _, l := range x.Lhs {
+				for i, l := range x.Lhs {
 					if id, ok := l.(*ast.Ident); ok && u.Info().ObjectOf(id) == v {
-						found = true
+						if len(x.Lhs) == len(x.Rhs) && nonNilErr(x.Rhs[i]) && found == 0 {
+							found = 2
+						} else {
+							found = 1
+						}
 					}
 				}
 			case *ast.ValueSpec:
 				for _, id := range x.Names {
 					if u.Info().ObjectOf(id) == v {
-						found = true
+						found = 1
 					}
 				}
 			}
@@ -158,8 +180,11 @@ func (u *Unit) onlyDefReaching(v types.Object, a *flow.Site, at *flow.Block) boo
 			if b == a.Block && i == a.NodeIdx {
 				return
 			}
-			if assigns(n) {
+			switch assigns(n) {
+			case 1:
 				ok = false
+				return
+			case 2:
 				return
 			}
 		}
@@ -261,6 +286,7 @@ type OrderOpts struct {
 	Success Success
 	Unless  string // rule formula: B sites whose path condition implies it are exempt
 	Assume  string // rule formula: only paths consistent with it are considered
+	SkipErrEdges bool // edges taken only when some error variable is non-nil are not followed (error paths)
 	Min     int    // minimum number of B sites
 	What    string // one-line meaning, for the evidence
 }
@@ -276,7 +302,11 @@ func (r *Report) Order(rule string, u *Unit, b M, as []M, o OrderOpts) {
 	for _, am := range as {
 		for _, a := range u.Match(am) {
 			na++
-			g, msg := u.successGates(a, o.Success)
+			mode := o.Success
+			if am.succ != nil {
+				mode = *am.succ
+			}
+			g, msg := u.successGates(a, mode)
 			if msg != "" {
 				why = append(why, fmt.Sprintf("%s at %s: %s", am.Desc(), u.Pos(a.Pos), msg))
 			}
@@ -314,8 +344,16 @@ func (r *Report) Order(rule string, u *Unit, b M, as []M, o OrderOpts) {
 			}
 		}
 	}
+	if o.SkipErrEdges {
+		for b := range u.errEdges() {
+			edgeGate[b] = true
+		}
+	}
 	for _, bsite := range bs {
 		construct := fmt.Sprintf("%s: %s preceded by %s", u.Name, u.SiteString(bsite), strings.Join(adesc, " | "))
+		if o.SkipErrEdges {
+			construct += " on non-error paths"
+		}
 		if o.Assume != "" {
 			construct += " assuming " + o.Assume
 		}
@@ -567,4 +605,39 @@ func clip(s string, n int) string {
 		return s[:n] + "…"
 	}
 	return s
+}
+
+// errEdges: edge blocks whose condition implies v != nil for a local error variable v that is never
+// assigned the literal nil in the function (so a non-nil error stays non-nil until overwritten by a
+// call result).
+func (u *Unit) errEdges() map[*flow.Block]bool {
+	out := map[*flow.Block]bool{}
+	nilAssigned := map[types.Object]bool{}
+	for _, s := range u.Sites {
+		if s.Kind == flow.SStore && s.Local != nil && s.RHS != nil {
+			if id, ok := ast.Unparen(s.RHS).(*ast.Ident); ok && id.Name == "nil" {
+				nilAssigned[s.Local] = true
+			}
+		}
+	}
+	for _, b := range u.G.Blocks {
+		if b.EdgeCond == nil || !b.Reachable() {
+			continue
+		}
+		vars, _ := u.C.Footprint(b.EdgeCond)
+		f := u.edgeFormula(b)
+		for v := range vars {
+			if !isErrorType(v.Type()) || nilAssigned[v] {
+				continue
+			}
+			id := &ast.Ident{Name: v.Name()}
+			_ = id
+			term := u.C.TermOfObj(v)
+			goal := flow.Not(flow.MakeCmp(tokEQL, term, "nil", "", "nil"))
+			if res := flow.Implies(f, goal); res.Holds && res.Undecided == "" {
+				out[b] = true
+			}
+		}
+	}
+	return out
 }
